@@ -112,7 +112,8 @@ def main():
         try:
           K.set_learning_phase(ph)
           DRAW[0] = u
-          y = make(c, True)(xt).numpy()
+          # the flag as True or as the integer 1 (what str(q) prints and a quantizer string produces)
+          y = make(c, True if ci % 2 else 1)(xt).numpy()
         except Exception as e:
           errors.append({"k": "raises", "c": ci + 1, "phase": ph, "rank": int(x.ndim), "exc": repr(e)[:300]})
           continue
